@@ -269,9 +269,7 @@ class Metadata(CbMixin, ProgMixin):
         self.pieces = info.get("pieces", bytes())
         if self.meta_version == 2:
             tree = info["file tree"]
-            if "length" in info or ("files" not in info and list(tree) == [
-                    self.name
-            ] and "" in tree[self.name]):
+            if "length" in info:
                 # single file torrent: the file is not nested in a directory
                 self._parse_tree(tree, [])
             else:
